@@ -100,6 +100,8 @@ def run_modes(case, bus, ex):
             u = u * (np.cos(arg) if kinds[d] == "cos" else np.sin(arg))
         c = np.asarray(ex.spectral.get_fourier_coefficients(jnp.asarray(u[None]), round=None))[0]
         bus.tap("get_fourier_coefficients")
+        c5 = np.asarray(ex.spectral.get_fourier_coefficients(jnp.asarray(u[None])))[0]          # documented default: rounded to 5 decimals
+        bus.judge("coef_extraction", float(np.max(np.abs(c5 - np.round(c, 5)))), 1.1e-5 * 1e-6 + 1e-12, (D, N % 2, "round=5"), witness=dict(D=D, N=N, k=list(k), what="default rounding to 5 decimals"))
         mag = np.abs(c)
         expect = np.zeros_like(mag)
         for signs in itertools.product(*[([1, -1] if (d < D - 1 and k[d] > 0) else [1]) for d in range(D)]):
